@@ -165,13 +165,21 @@ DInit == \E i \in DOMAIN GivenToks :
 DSpec == DInit /\ [][UNCHANGED vars]_vars
 Accepted == alive /\ LET f == Finish(stk, ctx) IN f.syn /\ f.c.ok
 InDomain == ~ctx.dup
-\* counters via TLCSet
+\* Where the first error is reported (extension X03; 0 = not specified here: sentences, whose errors are static ones).
+\* A refused token is reported at its own position - except that a sugar operator that is not followed by an integer is
+\* itself the offending token (the id+int / id-int rewriting did not apply, so the operator reaches the parser);
+\* input cut off by the end of file is reported at the last token.
+ErrAt == IF alive THEN (IF Finish(stk, ctx).syn THEN 0 ELSE Len(toks))
+         ELSE IF Len(toks) >= 2 /\ stk # <<>> /\ Head(stk) = "@int" /\ toks[Len(toks) - 1].k \in {"plus", "minus"} THEN Len(toks) - 1
+         ELSE Len(toks)
 DEmit == PrintT("@@" \o ToJson([i |-> nch, alive |-> alive, acc |-> (alive /\ Accepted),
                                  dup |-> (IF alive THEN Finish(stk, ctx).c.dup ELSE ctx.dup)]))
 \* one case per reachable state: the token texts ("a","f","g" identifiers, "1"/"big" integers, otherwise the token kind),
 \* whether the prefix is still viable, whether it is a sentence obeying the static rules, and the domain flag
 Emit == PrintT("@@" \o ToJson([toks |-> [i \in DOMAIN toks |-> toks[i].t], alive |-> alive, acc |-> (alive /\ Accepted),
+                                sent |-> (alive /\ Finish(stk, ctx).syn), errat |-> ErrAt,      \* sent: a sentence of the grammar (static rules aside); errat: token-level enumerator only
                                 dup |-> (IF alive THEN Finish(stk, ctx).c.dup ELSE ctx.dup)]))
+\* counters via TLCSet
 Count == /\ (alive /\ Accepted => TLCSet(1, TLCGet(1) + 1))
          /\ (~alive => TLCSet(2, TLCGet(2) + 1))
          /\ (alive /\ ~Accepted => TLCSet(3, TLCGet(3) + 1))
